@@ -30,7 +30,8 @@ def _axioms():
 
 
 def key_term(it, k):
-    _axioms()
+    # injectivity / disjointness of the key constructors is applied structurally (key_eq, present); the quantified axioms above are not
+    # added to queries any more: they made satisfiable queries answer `unknown`, i.e. refutations undecided
     zs = it.zstr(k) if not isinstance(k, (tuple, PObj)) else None
     if zs is not None:
         return key_str(zs)
@@ -43,12 +44,31 @@ def key_term(it, k):
     raise Unsupported(f"dictionary key {k!r}")
 
 
+def key_eq(a, b):
+    """Equality of two key terms as a formula over their components (injectivity / disjointness applied structurally)."""
+    ctors = (key_str, key_pair, key_obj)
+    if z3.is_app(a) and z3.is_app(b) and any(a.decl().eq(c) for c in ctors) and any(b.decl().eq(c) for c in ctors):
+        if not a.decl().eq(b.decl()):
+            return z3.BoolVal(False)
+        return z3.simplify(z3.And(*[a.arg(i) == b.arg(i) for i in range(a.num_args())]))
+    return z3.simplify(a == b)
+
+
+def present(d, kt):
+    """Formula for `kt in d`: one of the keys stored during this run (structural equality) or present initially."""
+    alts = [key_eq(k2, kt) for k2, _ in d.stores]
+    if any(z3.is_true(a) for a in alts):
+        return z3.BoolVal(True)
+    alts = [a for a in alts if not z3.is_false(a)]
+    return z3.Or(*alts, z3.Select(d.present0, kt)) if alts else z3.Select(d.present0, kt)
+
+
 def attr_model(it, o, name):
     if isinstance(o, SymDict):
         if name == "get":
             def get(k, default=None):
                 kt = key_term(it, k)
-                if it.branch(z3.Select(o.present, kt)):
+                if it.branch(present(o, kt)):
                     return it.symdict_value(o, kt)
                 return default
             return get
